@@ -695,3 +695,360 @@ package scipipe
 //@   loop 1 invariant parsed: forall j int :: 0 <= j && j < len(placeHolderInfos) ==> placeHolderInfos[j] != nil && placeHolderInfos[j].match == placeHolderMatches[j][0] && placeHolderInfos[j].portName == splitOf(placeHolderMatches[j][2], "|")[0] && (forall k int :: 0 <= k && k < len(placeHolderInfos[j].modifiers) ==> placeHolderInfos[j].modifiers[k] == splitOf(placeHolderMatches[j][2], "|")[k + 1])
 //@   loop 2 invariant range: 0 <= $i && $i <= len(subStreamIPs[portName]) && len(paths) == $i
 //@   loop 2 invariant joined: forall j int :: 0 <= j && j < $i ==> paths[j] == prependOf(applyMods(subStreamIPs[portName][j].path, placeHolder.modifiers))
+
+// ---------------------------------------------------------------------------
+// C16 / C04: wiring (port.go), readiness (baseprocess.go), starting processes (workflow.go)
+// ---------------------------------------------------------------------------
+
+//@ ghost var spawned arr[ref]int
+//@ ghost var sawReady set[ref]
+//@ ghost func procName(p ref) string
+//@ ghost func inPortsOf(p ref) map[string]*InPort
+//@ ghost func outPortsOf(p ref) map[string]*OutPort
+//@ ghost func inParamPortsOf(p ref) map[string]*InParamPort
+//@ ghost func outParamPortsOf(p ref) map[string]*OutParamPort
+
+// Interface contracts of WorkflowProcess (assumed for dynamic dispatch; every implementation in this repository embeds
+// BaseProcess, whose methods are verified against the same statements below).
+//@ iface scipipe.WorkflowProcess.Name() (res)
+//@   deterministic by-contract the name of a process does not change
+//@   ensures def: res == procName(self)
+//@ iface scipipe.WorkflowProcess.InPorts() (res)
+//@   ensures def: res == inPortsOf(self) && res != nil
+//@ iface scipipe.WorkflowProcess.OutPorts() (res)
+//@   ensures def: res == outPortsOf(self) && res != nil
+//@ iface scipipe.WorkflowProcess.InParamPorts() (res)
+//@   ensures def: res == inParamPortsOf(self) && res != nil
+//@ iface scipipe.WorkflowProcess.OutParamPorts() (res)
+//@   ensures def: res == outParamPortsOf(self) && res != nil
+//@ iface scipipe.WorkflowProcess.Ready() (res)
+//@   modifies sawReady
+//@   ensures saw: res ==> sawReady[self]
+//@   ensures grows: forall p ref :: old(sawReady)[p] ==> sawReady[p]
+//@ iface scipipe.WorkflowProcess.Run()
+//@   modifies *
+//@   onspawn modifies spawned
+//@   onspawn ensures once: spawned == update(old(spawned), self, old(spawned)[self] + 1)
+//@ iface scipipe.WorkflowProcess.Failf(msg, parts)
+//@   noreturn
+//@ iface scipipe.WorkflowProcess.Fail(msg)
+//@   noreturn
+
+//@ func (*BaseProcess).Ready(p) (isReady)
+//@   props C16
+//@   ensures returns-only-if-all-connected: isReady && (forall k string :: k in p.inPorts ==> p.inPorts[k].ready) && (forall k string :: k in p.outPorts ==> p.outPorts[k].ready) && (forall k string :: k in p.inParamPorts ==> p.inParamPorts[k].ready) && (forall k string :: k in p.outParamPorts ==> p.outParamPorts[k].ready)
+//@   loop 0 invariant ok: isReady && forall k string :: $visited[k] ==> p.inPorts[k].ready
+//@   loop 1 invariant ok: isReady && forall k string :: $visited[k] ==> p.outPorts[k].ready
+//@   loop 2 invariant ok: isReady && forall k string :: $visited[k] ==> p.inParamPorts[k].ready
+//@   loop 3 invariant ok: isReady && forall k string :: $visited[k] ==> p.outParamPorts[k].ready
+
+//@ func (*InPort).Ready(pt) (res)
+//@   props C16
+//@   ensures def: res == pt.ready
+//@ func (*OutPort).Ready(pt) (res)
+//@   props C16
+//@   ensures def: res == pt.ready
+//@ func (*InParamPort).Ready(pip) (res)
+//@   props C16
+//@   ensures def: res == pip.ready
+//@ func (*OutParamPort).Ready(pop) (res)
+//@   props C16
+//@   ensures def: res == pop.ready
+//@ func (*InPort).SetReady(pt, ready)
+//@   props C16
+//@   modifies pt.ready
+//@   ensures def: pt.ready == ready
+//@ func (*OutPort).SetReady(pt, ready)
+//@   props C16
+//@   modifies pt.ready
+//@   ensures def: pt.ready == ready
+//@ func (*InParamPort).SetReady(pip, ready)
+//@   props C16
+//@   modifies pip.ready
+//@   ensures def: pip.ready == ready
+//@ func (*OutParamPort).SetReady(pop, ready)
+//@   props C16
+//@   modifies pop.ready
+//@   ensures def: pop.ready == ready
+
+//@ func (*InPort).Process(pt) (res)
+//@   props C16
+//@   ensures def: res == pt.process && res != nil
+//@ func (*OutPort).Process(pt) (res)
+//@   props C16
+//@   ensures def: res == pt.process && res != nil
+//@ func (*InParamPort).Process(pip) (res)
+//@   props C16
+//@   ensures def: res == pip.process && res != nil
+//@ func (*OutParamPort).Process(pop) (res)
+//@   props C16
+//@   ensures def: res == pop.process && res != nil
+//@ func (*InPort).Name(pt) (res)
+//@   props C16
+//@   ensures def: res == procName(pt.process) + "." + pt.name
+//@ func (*OutPort).Name(pt) (res)
+//@   props C16
+//@   ensures def: res == procName(pt.process) + "." + pt.name
+//@ func (*InParamPort).Name(pip) (res)
+//@   props C16
+//@   ensures def: res == procName(pip.process) + "." + pip.name
+//@ func (*OutParamPort).Name(pop) (res)
+//@   props C16
+//@   ensures def: res == procName(pop.process) + "." + pop.name
+//@ func (*InPort).Failf(pt, msg, parts)
+//@   props C09
+//@   noreturn
+//@ func (*InPort).Fail(pt, msg)
+//@   props C09
+//@   noreturn
+//@ func (*OutPort).Failf(pt, msg, parts)
+//@   props C09
+//@   noreturn
+//@ func (*OutPort).Fail(pt, msg)
+//@   props C09
+//@   noreturn
+//@ func (*InParamPort).Failf(pt, msg, parts)
+//@   props C09
+//@   noreturn
+//@ func (*InParamPort).Fail(pt, msg)
+//@   props C09
+//@   noreturn
+//@ func (*OutParamPort).Failf(pt, msg, parts)
+//@   props C09
+//@   noreturn
+//@ func (*OutParamPort).Fail(pt, msg)
+//@   props C09
+//@   noreturn
+//@ func (*Workflow).Failf(wf, msg, parts)
+//@   props C09
+//@   noreturn
+//@ func (*Workflow).Fail(wf, msg)
+//@   props C09
+//@   noreturn
+//@ func (*Workflow).Name(wf) (res)
+//@   props C09
+//@   ensures def: res == wf.name
+//@ func (*Workflow).Auditf(wf, msg, parts)
+//@   props C16
+
+//@ func (*Workflow).readyToRun(wf, procs) (res)
+//@   props C16
+//@   modifies sawReady
+//@   ensures true-only-if-all-ready: res ==> len(procs) > 0 && wf.sink != nil && (forall k string :: k in procs ==> sawReady[procs[k]])
+//@   ensures grows: forall p ref :: old(sawReady)[p] ==> sawReady[p]
+//@   loop 0 invariant seen: forall k string :: $visited[k] ==> sawReady[procs[k]]
+//@   loop 0 invariant vis: forall k string :: $visited[k] ==> k in procs
+//@   loop 0 invariant grows: forall p ref :: old(sawReady)[p] ==> sawReady[p]
+
+// Process names identify processes (Workflow.AddProc refuses a second process with the same name): procOf is the
+// inverse of procName on non-nil processes.
+//@ ghost func procOf(name string) ref
+//@ axiom procOf.inverse: forall p ref :: p != nil ==> procOf(procName(p)) == p
+//@ define keyedByName(m map[string]WorkflowProcess) bool = forall k string :: k in m ==> m[k] != nil && m[k] == procOf(k) && procName(m[k]) == k
+//@ define listed(m map[string]WorkflowProcess, q ref) bool = procName(q) in m && m[procName(q)] == q
+
+//@ func mergeWFMaps(a, b) (res)
+//@   props C16
+//@   modifies a[*]
+//@   ensures same-map: res == a
+//@   ensures union: forall k string :: k in a <==> (old(k in a) || k in b)
+//@   ensures values: forall k string :: k in a ==> (k in b && a[k] == b[k]) || (!(k in b) && a[k] == old(a[k]))
+//@   loop 0 invariant vis: forall k string :: $visited[k] ==> k in b
+//@   loop 0 invariant union: forall k string :: k in a <==> (old(k in a) || $visited[k])
+//@   loop 0 invariant values: forall k string :: k in a ==> ($visited[k] && a[k] == b[k]) || (!$visited[k] && a[k] == old(a[k]))
+
+// q is a direct upstream of p: some in-port or parameter in-port of p has a remote (out-)port owned by q
+//@ define directUp(q ref, p ref) bool = (exists i string, r string :: i in inPortsOf(p) && r in inPortsOf(p)[i].RemotePorts && inPortsOf(p)[i].RemotePorts[r].process == q) || (exists i string, r string :: i in inParamPortsOf(p) && r in inParamPortsOf(p)[i].RemotePorts && inParamPortsOf(p)[i].RemotePorts[r].process == q)
+
+//@ func upstreamProcsForProc(proc) (procs)
+//@   props C16
+//@   modifies new(map[string]WorkflowProcess)
+//@   ensures fresh: fresh(procs) && procs != nil
+//@   ensures keyed-by-name: keyedByName(procs)
+//@   ensures direct-upstream-listed: forall q ref :: q != nil && directUp(q, proc) ==> procName(q) in procs
+//@   ensures closed-under-upstream: forall k string, q ref :: k in procs && q != nil && directUp(q, procOf(k)) ==> procName(q) in procs
+//@   ensures only-upstream: forall k string :: k in procs ==> directUp(procOf(k), proc) || (exists k2 string :: k2 in procs && directUp(procOf(k), procOf(k2)))
+//@   loop 0 invariant fresh: fresh(procs) && procs != nil
+//@   loop 0 invariant vis: forall i string :: $visited[i] ==> i in inPortsOf(proc)
+//@   loop 0 invariant keyed: keyedByName(procs)
+//@   loop 0 invariant direct: forall i string, r string :: $visited[i] && r in inPortsOf(proc)[i].RemotePorts && inPortsOf(proc)[i].RemotePorts[r].process != nil ==> procName(inPortsOf(proc)[i].RemotePorts[r].process) in procs
+//@   loop 0 invariant closed: forall k string, q ref :: k in procs && q != nil && directUp(q, procOf(k)) ==> procName(q) in procs
+//@   loop 0 invariant only-upstream: forall k string :: k in procs ==> directUp(procOf(k), proc) || (exists k2 string :: k2 in procs && directUp(procOf(k), procOf(k2)))
+//@   loop 1 invariant fresh: fresh(procs) && procs != nil
+//@   loop 1 invariant cur: inp != nil && (exists i string :: i in inPortsOf(proc) && inPortsOf(proc)[i] == inp)
+//@   loop 1 invariant vis: forall r string :: $visited[r] ==> r in inp.RemotePorts
+//@   loop 1 invariant keyed: keyedByName(procs)
+//@   loop 1 invariant direct-prev: forall i string, r string :: $visited0[i] && inPortsOf(proc)[i] != inp && r in inPortsOf(proc)[i].RemotePorts && inPortsOf(proc)[i].RemotePorts[r].process != nil ==> procName(inPortsOf(proc)[i].RemotePorts[r].process) in procs
+//@   loop 1 invariant direct-cur: forall r string :: $visited[r] && inp.RemotePorts[r].process != nil ==> procName(inp.RemotePorts[r].process) in procs
+//@   loop 1 invariant closed: forall k string, q ref :: k in procs && q != nil && directUp(q, procOf(k)) ==> procName(q) in procs
+//@   loop 1 invariant only-upstream: forall k string :: k in procs ==> directUp(procOf(k), proc) || (exists k2 string :: k2 in procs && directUp(procOf(k), procOf(k2)))
+//@   loop 2 invariant fresh: fresh(procs) && procs != nil
+//@   loop 2 invariant vis: forall i string :: $visited[i] ==> i in inParamPortsOf(proc)
+//@   loop 2 invariant keyed: keyedByName(procs)
+//@   loop 2 invariant direct-in: forall i string, r string :: i in inPortsOf(proc) && r in inPortsOf(proc)[i].RemotePorts && inPortsOf(proc)[i].RemotePorts[r].process != nil ==> procName(inPortsOf(proc)[i].RemotePorts[r].process) in procs
+//@   loop 2 invariant direct: forall i string, r string :: $visited[i] && r in inParamPortsOf(proc)[i].RemotePorts && inParamPortsOf(proc)[i].RemotePorts[r].process != nil ==> procName(inParamPortsOf(proc)[i].RemotePorts[r].process) in procs
+//@   loop 2 invariant closed: forall k string, q ref :: k in procs && q != nil && directUp(q, procOf(k)) ==> procName(q) in procs
+//@   loop 2 invariant only-upstream: forall k string :: k in procs ==> directUp(procOf(k), proc) || (exists k2 string :: k2 in procs && directUp(procOf(k), procOf(k2)))
+//@   loop 3 invariant fresh: fresh(procs) && procs != nil
+//@   loop 3 invariant cur: pip != nil && (exists i string :: i in inParamPortsOf(proc) && inParamPortsOf(proc)[i] == pip)
+//@   loop 3 invariant vis: forall r string :: $visited[r] ==> r in pip.RemotePorts
+//@   loop 3 invariant keyed: keyedByName(procs)
+//@   loop 3 invariant direct-in: forall i string, r string :: i in inPortsOf(proc) && r in inPortsOf(proc)[i].RemotePorts && inPortsOf(proc)[i].RemotePorts[r].process != nil ==> procName(inPortsOf(proc)[i].RemotePorts[r].process) in procs
+//@   loop 3 invariant direct-prev: forall i string, r string :: $visited2[i] && inParamPortsOf(proc)[i] != pip && r in inParamPortsOf(proc)[i].RemotePorts && inParamPortsOf(proc)[i].RemotePorts[r].process != nil ==> procName(inParamPortsOf(proc)[i].RemotePorts[r].process) in procs
+//@   loop 3 invariant direct-cur: forall r string :: $visited[r] && pip.RemotePorts[r].process != nil ==> procName(pip.RemotePorts[r].process) in procs
+//@   loop 3 invariant closed: forall k string, q ref :: k in procs && q != nil && directUp(q, procOf(k)) ==> procName(q) in procs
+//@   loop 3 invariant only-upstream: forall k string :: k in procs ==> directUp(procOf(k), proc) || (exists k2 string :: k2 in procs && directUp(procOf(k), procOf(k2)))
+
+// ---- wiring operations (port.go) ----
+
+//@ func (*InPort).AddRemotePort(pt, rpt)
+//@   props C16
+//@   modifies pt.RemotePorts[*]
+//@   ensures added: (procName(rpt.process) + "." + rpt.name) in pt.RemotePorts && pt.RemotePorts[procName(rpt.process) + "." + rpt.name] == rpt
+//@   ensures others: forall k string :: k != procName(rpt.process) + "." + rpt.name ==> ((k in pt.RemotePorts) <==> old(k in pt.RemotePorts)) && pt.RemotePorts[k] == old(pt.RemotePorts[k])
+//@   ensures nonempty: len(pt.RemotePorts) > 0
+//@ func (*OutPort).AddRemotePort(pt, rpt)
+//@   props C16
+//@   modifies pt.RemotePorts[*]
+//@   ensures added: (procName(rpt.process) + "." + rpt.name) in pt.RemotePorts && pt.RemotePorts[procName(rpt.process) + "." + rpt.name] == rpt
+//@   ensures others: forall k string :: k != procName(rpt.process) + "." + rpt.name ==> ((k in pt.RemotePorts) <==> old(k in pt.RemotePorts)) && pt.RemotePorts[k] == old(pt.RemotePorts[k])
+//@   ensures nonempty: len(pt.RemotePorts) > 0
+//@ func (*OutPort).removeRemotePort(pt, rptName)
+//@   props C16
+//@   modifies pt.RemotePorts[*]
+//@   ensures removed: !(rptName in pt.RemotePorts)
+//@   ensures others: forall k string :: k != rptName ==> ((k in pt.RemotePorts) <==> old(k in pt.RemotePorts)) && pt.RemotePorts[k] == old(pt.RemotePorts[k])
+//@   ensures len: len(pt.RemotePorts) == old(len(pt.RemotePorts)) - 1
+//@ func (*InPort).From(pt, rpt)
+//@   props C16
+//@   modifies pt.RemotePorts[*], rpt.RemotePorts[*], pt.ready, rpt.ready
+//@   ensures connected-and-ready: pt.ready && rpt.ready && len(pt.RemotePorts) > 0 && len(rpt.RemotePorts) > 0
+//@   ensures linked: pt.RemotePorts[procName(rpt.process) + "." + rpt.name] == rpt && rpt.RemotePorts[procName(pt.process) + "." + pt.name] == pt
+//@ func (*OutPort).To(pt, rpt)
+//@   props C16
+//@   modifies pt.RemotePorts[*], rpt.RemotePorts[*], pt.ready, rpt.ready
+//@   ensures connected-and-ready: pt.ready && rpt.ready && len(pt.RemotePorts) > 0 && len(rpt.RemotePorts) > 0
+//@   ensures linked: pt.RemotePorts[procName(rpt.process) + "." + rpt.name] == rpt && rpt.RemotePorts[procName(pt.process) + "." + pt.name] == pt
+//@ func (*OutPort).Disconnect(pt, rptName)
+//@   props C16
+//@   modifies pt.RemotePorts[*], pt.ready
+//@   ensures removed: !(rptName in pt.RemotePorts)
+//@   ensures others: forall k string :: k != rptName ==> ((k in pt.RemotePorts) <==> old(k in pt.RemotePorts)) && pt.RemotePorts[k] == old(pt.RemotePorts[k])
+//@   ensures ready-iff-connected: old(pt.ready <==> len(pt.RemotePorts) > 0) ==> (pt.ready <==> len(pt.RemotePorts) > 0)
+
+//@ func (*BaseProcess).InPort(p, portName) (res)
+//@   props C16
+//@   ensures returns-only-if-present: portName in p.inPorts && res == p.inPorts[portName]
+//@ func (*BaseProcess).InParamPort(p, portName) (res)
+//@   props C16
+//@   ensures returns-only-if-present: portName in p.inParamPorts && res == p.inParamPorts[portName]
+//@ func (*BaseProcess).OutPort(p, portName) (res)
+//@   props C16
+//@   ensures returns-only-if-present: portName in p.outPorts && res == p.outPorts[portName]
+//@ func (*BaseProcess).OutPorts(p) (res)
+//@   props C16
+//@   ensures def: res == p.outPorts
+//@ func (*BaseProcess).InPorts(p) (res)
+//@   props C16
+//@   ensures def: res == p.inPorts
+//@ func (*BaseProcess).InParamPorts(p) (res)
+//@   props C16
+//@   ensures def: res == p.inParamPorts
+//@ func (*BaseProcess).OutParamPorts(p) (res)
+//@   props C16
+//@   ensures def: res == p.outParamPorts
+//@ func (*Sink).in(p) (res)
+//@   props C16
+//@   ensures def: "sink_in" in p.inPorts && res == p.inPorts["sink_in"]
+//@ func (*Sink).paramIn(p) (res)
+//@   props C16
+//@   ensures def: "param_sink_in" in p.inParamPorts && res == p.inParamPorts["param_sink_in"]
+//@ func (*Sink).From(p, outPort)
+//@   props C16
+//@   modifies map[string]*OutPort, outPort.RemotePorts[*], InPort.ready, outPort.ready
+//@   ensures connected: outPort.ready && len(outPort.RemotePorts) > 0
+
+//@ func (*InParamPort).AddRemotePort(pip, pop)
+//@   props C16
+//@   modifies pip.RemotePorts[*]
+//@   ensures added: (procName(pop.process) + "." + pop.name) in pip.RemotePorts && pip.RemotePorts[procName(pop.process) + "." + pop.name] == pop
+//@   ensures others: forall k string :: k != procName(pop.process) + "." + pop.name ==> ((k in pip.RemotePorts) <==> old(k in pip.RemotePorts)) && pip.RemotePorts[k] == old(pip.RemotePorts[k])
+//@   ensures nonempty: len(pip.RemotePorts) > 0
+//@ func (*OutParamPort).AddRemotePort(pop, pip)
+//@   props C16
+//@   modifies pop.RemotePorts[*]
+//@   ensures added: (procName(pip.process) + "." + pip.name) in pop.RemotePorts && pop.RemotePorts[procName(pip.process) + "." + pip.name] == pip
+//@   ensures others: forall k string :: k != procName(pip.process) + "." + pip.name ==> ((k in pop.RemotePorts) <==> old(k in pop.RemotePorts)) && pop.RemotePorts[k] == old(pop.RemotePorts[k])
+//@   ensures nonempty: len(pop.RemotePorts) > 0
+//@ func (*OutParamPort).removeRemotePort(pop, pipName)
+//@   props C16
+//@   modifies pop.RemotePorts[*]
+//@   ensures removed: !(pipName in pop.RemotePorts)
+//@   ensures others: forall k string :: k != pipName ==> ((k in pop.RemotePorts) <==> old(k in pop.RemotePorts)) && pop.RemotePorts[k] == old(pop.RemotePorts[k])
+//@ func (*InParamPort).From(pip, pop)
+//@   props C16
+//@   modifies pip.RemotePorts[*], pop.RemotePorts[*], pip.ready, pop.ready
+//@   ensures connected-and-ready: pip.ready && pop.ready && len(pip.RemotePorts) > 0 && len(pop.RemotePorts) > 0
+//@ func (*OutParamPort).To(pop, pip)
+//@   props C16
+//@   modifies pip.RemotePorts[*], pop.RemotePorts[*], pip.ready, pop.ready
+//@   ensures connected-and-ready: pip.ready && pop.ready && len(pip.RemotePorts) > 0 && len(pop.RemotePorts) > 0
+//@ func (*OutParamPort).Disconnect(pop, pipName)
+//@   props C16
+//@   modifies pop.RemotePorts[*], pop.ready
+//@   ensures removed: !(pipName in pop.RemotePorts)
+//@   ensures others: forall k string :: k != pipName ==> ((k in pop.RemotePorts) <==> old(k in pop.RemotePorts)) && pop.RemotePorts[k] == old(pop.RemotePorts[k])
+//@   ensures ready-iff-connected: old(pop.ready <==> len(pop.RemotePorts) > 0) ==> (pop.ready <==> len(pop.RemotePorts) > 0)
+//@ func (*Sink).FromParam(p, outParamPort)
+//@   props C16
+//@   modifies map[string]*OutParamPort, outParamPort.RemotePorts[*], InParamPort.ready, outParamPort.ready
+//@   ensures connected: outParamPort.ready && len(outParamPort.RemotePorts) > 0
+
+//@ func (*Workflow).reconnectDeadEndConnections(wf, procs)
+//@   props C16
+//@   requires keyed: keyedByName(procs)
+//@   modifies map[string]*InPort, map[string]*OutPort, map[string]*InParamPort, map[string]*OutParamPort, InPort.ready, OutPort.ready, InParamPort.ready, OutParamPort.ready, wf.driver, procs[*]
+//@   ensures run-set-only-shrinks: forall k string :: k in procs ==> old(k in procs) && procs[k] == old(procs[k])
+//@   ensures only-driver-removed: forall k string :: old(k in procs) && !(k in procs) ==> old(procs[k]) == wf.driver
+//@   loop 0 invariant same: forall k string :: (k in procs <==> old(k in procs)) && procs[k] == old(procs[k])
+
+//@ func (*Workflow).runProcs(wf, procs)
+//@   props C04 C16
+//@   requires keyed: keyedByName(procs)
+//@   modifies *
+//@   atgo scipipe.WorkflowProcess.Run ready-before-start[C16]: forall k string :: k in procs ==> sawReady[procs[k]]
+//@   atgo scipipe.WorkflowProcess.Run member-of-run-set[C16]: exists k string :: k in procs && procs[k] == $arg0
+//@   atgo scipipe.WorkflowProcess.Run not-the-driver[C04]: $arg0 != wf.driver
+//@   atcall scipipe.WorkflowProcess.Run ready-before-start[C16]: forall k string :: k in procs ==> sawReady[procs[k]]
+//@   atcall scipipe.WorkflowProcess.Run is-the-driver[C04]: $arg0 == wf.driver
+//@   atcall scipipe.WorkflowProcess.Run driver-not-spawned[C04]: spawned[wf.driver] == old(spawned)[wf.driver]
+//@   atcall scipipe.WorkflowProcess.Run each-started-once[C04,C16]: forall k string :: k in procs && procs[k] != wf.driver ==> spawned[procs[k]] == old(spawned)[procs[k]] + 1
+//@   atcall scipipe.WorkflowProcess.Run only-run-set-started[C16]: forall p ref :: spawned[p] != old(spawned)[p] ==> exists k string :: k in procs && procs[k] == p
+//@   loop 0 invariant vis: forall k string :: $visited[k] ==> k in procs
+//@   loop 0 invariant started: forall k string :: $visited[k] && procs[k] != wf.driver ==> spawned[procs[k]] == old(spawned)[procs[k]] + 1
+//@   loop 0 invariant not-yet: forall p ref :: (p == wf.driver || !(exists k string :: $visited[k] && procs[k] == p)) ==> spawned[p] == old(spawned)[p]
+
+//@ func (*Workflow).Proc(wf, procName) (res)
+//@   props C16
+//@   ensures returns-only-if-present: procName in wf.procs && res == wf.procs[procName]
+
+//@ func (*Workflow).Run(wf)
+//@   props C16
+//@   requires keyed: keyedByName(wf.procs)
+//@   modifies *
+
+//@ func (*Workflow).RunToProcs(wf, finalProcs)
+//@   props C16
+//@   modifies *
+//@   atcall (*Workflow).runProcs keyed: keyedByName($arg1)
+//@   atcall (*Workflow).runProcs targets-included: forall j int :: 0 <= j && j < len(finalProcs) ==> procName(finalProcs[j]) in $arg1
+//@   atcall (*Workflow).runProcs upstream-included: forall j int, q ref :: 0 <= j && j < len(finalProcs) && q != nil && directUp(q, finalProcs[j]) ==> procName(q) in $arg1
+//@   atcall (*Workflow).runProcs closed-under-upstream: forall k string, q ref :: k in $arg1 && q != nil && directUp(q, procOf(k)) ==> procName(q) in $arg1
+//@   atcall (*Workflow).runProcs nothing-else: forall k string :: k in $arg1 ==> (exists j int :: 0 <= j && j < len(finalProcs) && k == procName(finalProcs[j])) || (exists k2 string :: k2 in $arg1 && directUp(procOf(k), procOf(k2)))
+//@   loop 0 invariant range: 0 <= $i && $i <= len(finalProcs)
+//@   loop 0 invariant fresh: fresh(procsToRun) && procsToRun != nil
+//@   loop 0 invariant keyed: keyedByName(procsToRun)
+//@   loop 0 invariant targets: forall j int :: 0 <= j && j < $i ==> procName(finalProcs[j]) in procsToRun
+//@   loop 0 invariant upstream: forall j int, q ref :: 0 <= j && j < $i && q != nil && directUp(q, finalProcs[j]) ==> procName(q) in procsToRun
+//@   loop 0 invariant closed: forall k string, q ref :: k in procsToRun && q != nil && directUp(q, procOf(k)) ==> procName(q) in procsToRun
+//@   loop 0 invariant nothing-else: forall k string :: k in procsToRun ==> (exists j int :: 0 <= j && j < $i && k == procName(finalProcs[j])) || (exists k2 string :: k2 in procsToRun && directUp(procOf(k), procOf(k2)))
